@@ -10,15 +10,23 @@
 //   map     IT PAT LAY CTOR EXTS [STRIDES]      extents construction + whole mapping table
 //   conv    IT PAT LAY KIND EXTS [STRIDES]      KIND: stride | dyn | lr | toleft | toright
 //   mdspan  IT PAT LAY ACC  EXTS [STRIDES]      ACC: access form call | arr | span | br, or constructor form
-//                                               acc (custom accessor + data handle, element type long long) | vdyn | vfull |
+//                                               acc (custom accessor + data handle, element type long long) |
+//                                               accil (accessor viewing every second entry: access(p,i) = p[2i+1]) | vdyn | vfull |
 //                                               adyn | sdyn | sfull (variadic/array/span of rank_dynamic resp. rank extents) |
 //                                               def (default-construct, then assign) | swap
-//   mdarray IT PAT LAY CTOR ACC EXTS            CTOR: ext extval map mapval cont contmv copy conv span spanal strided alloc allocval variadic
+//   mdarray IT PAT LAY CTOR ACC EXTS [pad=K]    CTOR: ext extval map mapval cont contmv copy conv span spanal strided alloc allocval variadic
 //                                               arrext arrval arrcont (std::array container, fully static extents)
 //                                               contmve extvalal contal contmval mapcontal mapcontmval copyal swap default
+//                                               spanil spanilal stridedil (array built from a view with a non-trivial accessor policy)
+//                                               pad=K (K = 1..6): the container handed to the constructor has K elements more than
+//                                               required_span_size() (container-taking forms; std::array forms: K = 2 only)
+//   bigmap  IT PAT LAY EXTS [STRIDES] : t;t;... mapping over a HUGE index space (extents up to the limit of the index type) observed
+//                                               at the listed index tuples `[i,j,k]` only ("-" = none): strides, span, offsets,
+//                                               conversions to layout_stride / to dextents of another wide index type and back,
+//                                               size()/stride()/extent() of a view over it (no storage is touched)
 //   span    N EXT [VIA] : op;op;...             op: first c | last c | sub o c|d | tfirst c | tlast c | tsub o c|d | at i | fb | iter | conv
 //                                               VIA: ptr (default) | iters | range | carr | stdarr | def  (constructor of the initial span)
-// IT: int|size|short, PAT: one char per dimension, 'd' = dynamic_extent, digit = static extent, "-" = rank 0,
+// IT: int|size|short|long, PAT: one char per dimension, 'd' = dynamic_extent, digit = static extent, "-" = rank 0,
 // LAY: left|right|stride, EXTS/STRIDES: [a,b,c] (all `rank` extents; the constructor form decides what is passed).
 #include <config.h>
 
@@ -200,6 +208,8 @@ struct Ctx {
   VL patv;  // -1 = dynamic
   int lay = 0;
   VL ext, str;
+  long pad = 0;             // mdarray: surplus elements of the container
+  std::vector<VL> tuples;   // bigmap: the index tuples to observe
 };
 
 static VL parsePat(const std::string& p) {
@@ -585,6 +595,7 @@ struct FlipRaw {
 struct ViewRaw {
   long rss = 0, size = 0, size3 = 0, rank = 0, rdyn = 0;
   bool tooBig = false, handleOk = true, defaultOk = true, swapOk = true, accOk = true, empty = false, exhOk = true, flags = true, isAcc = false;
+  long mul = 1, add = 0;  // the accessor of the view designates the storage entry mul * offset + add
   VL refOff, mapOff, elems, logged, store, copyOff, convOff, conv, convLogged, ext, ext3, stride, mstride, sext;
   FlipRaw flip[2];
 };
@@ -721,6 +732,92 @@ template <class T> struct RecAcc {
   data_handle_type offset(data_handle_type p, std::size_t i) const { return data_handle_type(p.base + i); }
 };
 
+// an accessor policy whose access() is NOT p[i]: it views every second entry of the storage, starting at `start`
+// (raw pointer handle, so code that bypasses the accessor still compiles - and reads the wrong entry); it logs the offsets
+template <class T> struct Interleaved {
+  using element_type = T;
+  using reference = T&;
+  using data_handle_type = T*;
+  using offset_policy = Interleaved;
+  std::vector<std::size_t>* log = nullptr;
+  std::size_t start = 1;
+  Interleaved() = default;
+  explicit Interleaved(std::vector<std::size_t>* l, std::size_t st = 1) : log(l), start(st) {}
+  template <class U, std::enable_if_t<std::is_convertible_v<U (*)[], T (*)[]>, int> = 0>
+  Interleaved(const Interleaved<U>& o) : log(o.log), start(o.start) {}
+  reference access(data_handle_type p, std::size_t i) const {
+    if (log) log->push_back(i);
+    return p[2 * i + start];
+  }
+  data_handle_type offset(data_handle_type p, std::size_t i) const { return p + 2 * i; }
+};
+
+// a view with the interleaved accessor over 2*rss+1 entries; the access form rotates over the tuples
+template <class E, class L> ViewRaw viewRawIl(const Ctx& c, const std::vector<VL>& tuples) {
+  using I = typename E::index_type;
+  using M = typename L::template mapping<E>;
+  constexpr std::size_t R = E::rank();
+  ViewRaw w;
+  w.isAcc = true;
+  w.mul = 2;
+  w.add = 1;
+  E e = makeExt<E>("afull", c.ext);
+  M m = makeMap<L>(e, c.str);
+  w.rss = long(m.required_span_size());
+  if (w.rss < 0 || w.rss > 1000000) { w.tooBig = true; return w; }
+  std::vector<int> v(2 * w.rss + 1);
+  for (std::size_t k = 0; k < v.size(); ++k) v[k] = int(k);
+  std::vector<std::size_t> log;
+  auto logged = [&]() { return log.size() == 1 ? long(log[0]) : -1L - long(log.size()); };
+  using MS = S::mdspan<int, E, L, Interleaved<int>>;
+  MS ms(v.data(), m, Interleaved<int>(&log));
+  auto at = [&](auto& view, std::size_t n, const VL& t) -> decltype(auto) {
+    auto a = toArr<I, R>(t);
+    std::size_t form = n % (R == 1 ? 4 : 3);
+    if (form == 1) return view[a];
+    if (form == 2) return view[S::span<const I, R>(a)];
+    if constexpr (R == 1)
+      if (form == 3) return view[a[0]];
+    return std::apply([&](auto... i) -> decltype(auto) { return view(i...); }, a);
+  };
+  std::size_t n = 0;
+  for (auto& t : tuples) {
+    log.clear();
+    int& ref = at(ms, n++, t);
+    w.logged.push_back(logged());
+    w.refOff.push_back(posOf(&ref, v.data(), sizeof(int)));
+    w.mapOff.push_back(callMap(m, t));
+    w.elems.push_back(long(ref));
+  }
+  n = 0;
+  for (auto& t : tuples) { at(ms, n + 1, t) = int(100 + n); ++n; }
+  w.store.assign(v.begin(), v.end());
+  MS ms2 = ms;
+  using E3 = std::conditional_t<(!isStride<L> || strideFromAny<E>), S::dextents<OtherIndex<I>, R>, E>;
+  S::mdspan<const int, E3, L, Interleaved<const int>> ms3(ms);
+  n = 0;
+  for (auto& t : tuples) {
+    w.copyOff.push_back(posOf(&at(ms2, n + 2, t), v.data(), sizeof(int)));
+    log.clear();
+    const int& r3 = std::apply([&](auto... i) -> const int& { return ms3(i...); }, toArr<typename E3::index_type, R>(t));
+    w.convLogged.push_back(logged());
+    w.convOff.push_back(posOf(&r3, v.data(), sizeof(int)));
+    w.conv.push_back(long(r3));
+    ++n;
+  }
+  w.ext = extOf(ms.extents());
+  w.ext3 = extOf(ms3.extents());
+  for (std::size_t r = 0; r < R; ++r) w.sext.push_back(ms.static_extent(r) == D ? -1 : long(ms.static_extent(r)));
+  w.size = long(ms.size());
+  w.size3 = long(ms3.size());
+  w.empty = ms.empty();
+  w.rank = long(ms.rank());
+  w.rdyn = long(ms.rank_dynamic());
+  w.accOk = ms.accessor().log == &log && ms.accessor().start == 1 && ms.data_handle() == v.data() &&
+            ms3.accessor().log == &log && ms3.accessor().start == 1;
+  return w;
+}
+
 // the same observations through a view with a custom accessor policy / data handle and another element type
 template <class E, class L> ViewRaw viewRawAcc(const Ctx& c, const std::vector<VL>& tuples) {
   using I = typename E::index_type;
@@ -783,15 +880,17 @@ static Result viewJudge(const Ctx& c, const ViewRaw& w, const std::vector<VL>& t
   if (!w.accOk) orFail(res, "mdspan", "accessor()/data_handle()");
   if (w.refOff.size() != n || w.convOff.size() != n || w.copyOff.size() != n) orFail(res, "mdspan", "number of observations");
   else {
-    std::vector<long> shadow(w.rss);
-    for (long k = 0; k < w.rss; ++k) shadow[k] = k;
+    // (the storage has mul * rss + add entries; the accessor designates entry mul * offset + add)
+    std::vector<long> shadow(w.mul * w.rss + w.add);
+    for (std::size_t k = 0; k < shadow.size(); ++k) shadow[k] = long(k);
     for (std::size_t i = 0; i < n; ++i) {
       long e = exp[tuples[i]];
-      if (w.refOff[i] != w.mapOff[i]) orFail(res, "mdspan", "reference is not data_handle + mapping(idx) at " + listStr(tuples[i]));
-      if (w.refOff[i] != e) orFail(res, "mdspan", "reference is not the designated element at " + listStr(tuples[i]));
+      long pos = w.mul * e + w.add;
+      if (w.refOff[i] != w.mul * w.mapOff[i] + w.add) orFail(res, "mdspan", "reference is not accessor.access(data_handle, mapping(idx)) at " + listStr(tuples[i]));
+      if (w.refOff[i] != pos) orFail(res, "mdspan", "reference is not the designated element at " + listStr(tuples[i]));
       if (w.isAcc && (w.logged[i] != e || w.convLogged[i] != e)) orFail(res, "mdspan", "the accessor was not asked for exactly the designated offset at " + listStr(tuples[i]));
-      if (w.copyOff[i] != e || w.convOff[i] != e) orFail(res, "mdspan", "copy/conversion refers to a different element at " + listStr(tuples[i]));
-      if (e >= 0 && e < w.rss) shadow[e] = 100 + long(i);
+      if (w.copyOff[i] != pos || w.convOff[i] != pos) orFail(res, "mdspan", "copy/conversion refers to a different element at " + listStr(tuples[i]));
+      if (e >= 0 && e < w.rss) shadow[pos] = 100 + long(i);
     }
     if (shadow != w.store) orFail(res, "mdspan", "writes through the view did not hit exactly the designated elements");
   }
@@ -822,9 +921,10 @@ static Result viewJudge(const Ctx& c, const ViewRaw& w, const std::vector<VL>& t
 
 template <class E, class L> Result doMdspan(const Ctx& c) {
   constexpr std::size_t R = E::rank();
-  if (c.x != "acc" && !validAcc(c.x, R) && !isCtorForm(c.x)) throw BadOp{};
+  if (c.x != "acc" && c.x != "accil" && !validAcc(c.x, R) && !isCtorForm(c.x)) throw BadOp{};
   auto tuples = tuplesRowMajor(c.ext);
   if (c.x == "acc") return viewJudge(c, viewRawAcc<E, L>(c, tuples), tuples);
+  if (c.x == "accil") return viewJudge(c, viewRawIl<E, L>(c, tuples), tuples);
   return viewJudge(c, viewRaw<E, L>(c, tuples), tuples);
 }
 
@@ -833,7 +933,8 @@ template <class E, class L> Result doMdspan(const Ctx& c) {
 // ------------------------------------------------------------------------------------------------------------------
 
 struct ArrRaw {
-  long csize = 0, size = 0;
+  long csize = 0, size = 0, vsize = 0, cvsize = 0, ccsize = 0;
+  VL ccVals;  // elements of a copy of the array made through its view
   bool empty = false, cv2ExtEq = true, otherEq = false, copyEq = true, copyIndep = true, copyNe = true;
   VL init, getC, refOff, after, view, vwOff, cvwOff, vw2Off, cv2Off, extracted, ext, stride, mstride;
   FlipRaw flip[2];
@@ -914,13 +1015,20 @@ template <class E, class L, class A, class M> ArrRaw arrRaw(A& a, const M& m, co
   }
   w.size = long(a.size());
   w.empty = a.empty();
+  // sizes as reported by the views of the array, and a copy made through the view (owns exactly size() elements)
+  w.vsize = long(vw.size());
+  w.cvsize = long(cv2.size());
+  S::mdarray<int, E, L> cc(vw);
+  w.ccsize = long(cc.container_size());
+  for (auto& t : tuples) w.ccVals.push_back(long(accessAtC(std::as_const(cc), "call", toArr<I, R>(t))));
   return w;
 }
 
 static Result arrJudge(const Ctx& c, const ArrRaw& w, const std::vector<VL>& tuples, long want, const VL& expectInit, Result res) {
   auto exp = expectedOffsets(c.lay, c.ext, c.str);
   std::size_t n = tuples.size();
-  if (w.csize != want) orFail(res, "mdarray", "container_size " + std::to_string(w.csize) + " but required span is " + std::to_string(want));
+  if (w.csize != want + c.pad) orFail(res, "mdarray", "container_size " + std::to_string(w.csize) + " but the container handed over has " + std::to_string(want + c.pad) + " elements");
+  if (c.pad) stat("mdarray_padded_container");
   if (w.init != expectInit) orFail(res, "mdarray", "initial contents");
   VL shadow(w.init);
   for (std::size_t i = 0; i < n; ++i) {
@@ -955,8 +1063,16 @@ static Result arrJudge(const Ctx& c, const ArrRaw& w, const std::vector<VL>& tup
   if (!w.copyNe) orFail(res, "mdarray", "modified copy still compares equal");
   if (w.stride != w.mstride) orFail(res, "mdarray", "stride()");
   if (w.ext != c.ext) orFail(res, "mdarray", "extents");
-  if (w.size != want || w.empty != (want == 0)) orFail(res, "mdarray", "size()/empty()");
-  res.impl = "csize=" + std::to_string(w.csize) + " size=" + std::to_string(w.size) + " ext=" + listStr(w.ext) +
+  if (w.size != want || w.empty != (want == 0))
+    orFail(res, "mdarray", "size()/empty(): size() = " + std::to_string(w.size) + " but the index space has " + std::to_string(want) + " index tuples");
+  if (w.vsize != want || w.cvsize != want) orFail(res, "mdarray", "size() of the array's view does not count the index tuples");
+  if (w.ccsize != want) orFail(res, "mdarray", "a copy made through the view owns " + std::to_string(w.ccsize) + " elements, not size()");
+  for (std::size_t i = 0; i < n && i < w.ccVals.size(); ++i) {
+    long e = exp[tuples[i]];
+    if (e >= 0 && e < (long)w.after.size() && w.ccVals[i] != w.after[e]) { orFail(res, "mdarray", "a copy made through the view holds a different element at " + listStr(tuples[i])); break; }
+  }
+  res.impl = "csize=" + std::to_string(w.csize) + " size=" + std::to_string(w.size) + " vsize=" + std::to_string(w.vsize) +
+             " ccsize=" + std::to_string(w.ccsize) + " ext=" + listStr(w.ext) +
              " init=" + listStr(w.init) + " cont=" + listStr(w.after) + " view=" + listStr(w.view);
   return res;
 }
@@ -974,8 +1090,18 @@ template <class E, class L> Result doMdarray(const Ctx& c) {
     auto tuples = tuplesRowMajor(c.ext);
     auto exp = expectedOffsets(c.lay, c.ext, c.str);
     long want = (long)tuples.size();  // left/right: required span = number of index tuples
-    std::vector<int> cont(want), src(want), expectInit(want, 0);
-    for (long k = 0; k < want; ++k) { cont[k] = int(10 + k); src[k] = int(3 * k + 1); }
+    // the container handed to the container-taking constructors may be larger than the required span (c.pad surplus elements)
+    static const std::set<std::string> takesContainer = {"cont", "contmv", "copy", "conv", "contmve", "contal", "contmval",
+                                                         "mapcontal", "mapcontmval", "copyal", "swap"};
+    const bool arrForm = c.x == "arrext" || c.x == "arrval" || c.x == "arrcont";
+    if (c.pad != 0 && !(takesContainer.count(c.x) || (arrForm && c.pad == 2))) throw BadOp{};
+    std::vector<int> cont(want + c.pad), src(want), expectInit(want, 0);
+    for (long k = 0; k < want + c.pad; ++k) cont[k] = int(10 + k);
+    for (long k = 0; k < want; ++k) src[k] = int(3 * k + 1);
+    // interleaved storage for the views with a non-trivial accessor: the view shows entries 1, 3, 5, ...
+    std::vector<int> src2(2 * want + 1);
+    for (std::size_t k = 0; k < src2.size(); ++k) src2[k] = int(3 * k + 1);
+    std::vector<std::size_t> accLog;
     std::optional<A> aO;
     const std::string& k = c.x;
     Result res;
@@ -983,6 +1109,26 @@ template <class E, class L> Result doMdarray(const Ctx& c) {
     else if (k == "extval") { aO.emplace(e, 7); expectInit.assign(want, 7); }
     else if (k == "map") aO.emplace(m);
     else if (k == "mapval") { aO.emplace(m, 7); expectInit.assign(want, 7); }
+    else if (k == "spanil" || k == "spanilal" || k == "stridedil") {
+      // built from a view whose accessor policy is not p[i]: the array must hold accessor.access(p, mapping(idx))
+      expectInit.clear();
+      for (long q = 0; q < want; ++q) expectInit.push_back(src2[2 * q + 1]);
+      if (k == "stridedil") {
+        if constexpr (strideFromAny<E>) {
+          S::mdspan<int, E, S::layout_stride, Interleaved<int>> sp(src2.data(), S::layout_stride::mapping<E>(m), Interleaved<int>(&accLog));
+          aO.emplace(sp);
+        } else return rank0Failure();
+      } else {
+        S::mdspan<int, E, L, Interleaved<int>> sp(src2.data(), m, Interleaved<int>(&accLog));
+        if (k == "spanil") aO.emplace(sp); else aO.emplace(sp, std::allocator<int>());
+      }
+      // every element is fetched through the accessor, exactly once, at the designated offset
+      std::vector<std::size_t> wantLog;
+      for (auto& t : tuples) wantLog.push_back(std::size_t(exp[t]));
+      std::sort(wantLog.begin(), wantLog.end());
+      std::sort(accLog.begin(), accLog.end());
+      if (accLog != wantLog) orFail(res, "mdarray", "construction from a view did not fetch every element exactly once through the accessor of the view");
+    }
     else if (k == "cont") { aO.emplace(e, cont); expectInit = cont; }
     else if (k == "contmv") { std::vector<int> tmp(cont); aO.emplace(m, std::move(tmp)); expectInit = cont; }
     else if (k == "copy") { A a0(m, cont); aO.emplace(a0); expectInit = cont; if (!(a0 == *aO)) orFail(res, "mdarray", "copy compares unequal"); }
@@ -1036,13 +1182,19 @@ template <class E, class L> Result doMdarray(const Ctx& c) {
     else if (k == "arrext" || k == "arrval" || k == "arrcont") {
       // std::array container (Impl::ContainerConstructionTraits<std::array>): fully static extents only
       if constexpr (R > 0 && E::rank_dynamic() == 0) {
-        constexpr std::size_t N = []() { std::size_t p = 1; for (std::size_t r = 0; r < R; ++r) p *= E::static_extent(r); return p; }();
-        using A2 = S::mdarray<int, E, L, std::array<int, N>>;
-        std::optional<A2> a2;
-        if (k == "arrext") a2.emplace(e);
-        else if (k == "arrval") { a2.emplace(e, 7); expectInit.assign(want, 7); }
-        else { std::array<int, N> ca{}; for (std::size_t q = 0; q < N; ++q) ca[q] = int(10 + q); a2.emplace(e, ca); expectInit = cont; }
-        return arrJudge(c, arrRaw<E, L>(*a2, m, c, tuples), tuples, want, VL(expectInit.begin(), expectInit.end()), res);
+        constexpr std::size_t N0 = []() { std::size_t p = 1; for (std::size_t r = 0; r < R; ++r) p *= E::static_extent(r); return p; }();
+        // (ContainerConstructionTraits<std::array<T,N>> only requires required_span_size() <= N: also a larger array)
+        auto run = [&](auto np) {
+          constexpr std::size_t N = decltype(np)::value;
+          using A2 = S::mdarray<int, E, L, std::array<int, N>>;
+          std::optional<A2> a2;
+          if (k == "arrext") { a2.emplace(e); expectInit.assign(N, 0); }
+          else if (k == "arrval") { a2.emplace(e, 7); expectInit.assign(N, 7); }
+          else { std::array<int, N> ca{}; for (std::size_t q = 0; q < N; ++q) ca[q] = int(10 + q); a2.emplace(e, ca); expectInit = cont; }
+          return arrJudge(c, arrRaw<E, L>(*a2, m, c, tuples), tuples, want, VL(expectInit.begin(), expectInit.end()), res);
+        };
+        if (c.pad == 2) return run(std::integral_constant<std::size_t, N0 + 2>{});
+        return run(std::integral_constant<std::size_t, N0>{});
       } else throw BadOp{};
     }
     else throw BadOp{};
@@ -1051,15 +1203,218 @@ template <class E, class L> Result doMdarray(const Ctx& c) {
 }
 
 // ------------------------------------------------------------------------------------------------------------------
+// bigmap: mappings over huge index spaces (the limits of every index type), observed at sampled index tuples
+// ------------------------------------------------------------------------------------------------------------------
+
+using I128 = __int128;
+// largest required_span_size() used with an index type (64-bit types: 2^61, so that the oracle's own long arithmetic is safe)
+static long limitOf(const std::string& it) {
+  if (it == "short") return 32767L;
+  if (it == "int") return 2147483647L;
+  if (it == "size" || it == "long") return 1L << 61;
+  throw BadOp{};
+}
+// another index type that can hold every value of I (conversion partner, and the type the strides are passed in)
+template <class I> using WideOther = std::conditional_t<std::is_same_v<I, std::size_t>, long long,
+                                     std::conditional_t<std::is_same_v<I, long>, unsigned long, long>>;
+
+struct BigObs {
+  VL ext, str, offs, mext, mstr;
+  long rss = 0, msize = 0;
+};
+static std::string blockBig(const BigObs& o) {
+  return "ext=" + listStr(o.ext) + " rss=" + std::to_string(o.rss) + " str=" + listStr(o.str) + " offs=" + listStr(o.offs) +
+         " msize=" + std::to_string(o.msize);
+}
+
+template <class L, class M> BigObs observeBig(const M& m, const std::vector<VL>& tuples) {
+  using E = typename M::extents_type;
+  constexpr std::size_t R = E::rank();
+  BigObs o;
+  for (std::size_t r = 0; r < R; ++r) o.ext.push_back(long(m.extents().extent(r)));
+  if constexpr (R > 0)
+    for (std::size_t r = 0; r < R; ++r) o.str.push_back(long(m.stride(r)));
+  o.rss = long(m.required_span_size());
+  for (auto& t : tuples) o.offs.push_back(callMap(m, t));
+  // a view over the mapping: only size()/extent()/stride() are called, no element is touched
+  S::mdspan<int, E, L> ms(static_cast<int*>(nullptr), m);
+  o.msize = long(ms.size());
+  for (std::size_t r = 0; r < R; ++r) {
+    o.mext.push_back(long(ms.extent(r)));
+    if constexpr (R > 0) o.mstr.push_back(long(ms.stride(r)));
+  }
+  return o;
+}
+
+struct BigRaw {
+  bool rank0 = false;
+  std::string early;  // the mapping itself is already wrong: the conversions (whose assertions may then fire) are not run
+  BigObs src, smid, sfin, dmid, dfin;
+};
+static std::string checkBig(int lay, const VL& ext, const VL& str, const std::vector<VL>& tuples, const BigObs& o);
+
+template <class E, class L> BigRaw bigRaw(const Ctx& c) {
+  using I = typename E::index_type;
+  using M = typename L::template mapping<E>;
+  using W = WideOther<I>;
+  constexpr std::size_t R = E::rank();
+  BigRaw w;
+  if constexpr (!strideFromAny<E>) { w.rank0 = true; return w; }
+  else {
+    E e = makeExt<E>("afull", c.ext);
+    auto mk = [&]() { if constexpr (isStride<L>) return M(e, toArr<W, R>(c.str)); else return M(e); };
+    M m = mk();
+    w.src = observeBig<L>(m, c.tuples);
+    w.early = checkBig(c.lay, c.ext, c.str, c.tuples, w.src);
+    if (!w.early.empty()) return w;
+    // to layout_stride and back
+    S::layout_stride::mapping<E> smid(m);
+    M sfin(smid);
+    w.smid = observeBig<S::layout_stride>(smid, c.tuples);
+    w.sfin = observeBig<L>(sfin, c.tuples);
+    // to dextents of another wide index type and back
+    using E2 = S::dextents<W, R>;
+    typename L::template mapping<E2> dmid(m);
+    M dfin(dmid);
+    w.dmid = observeBig<L>(dmid, c.tuples);
+    w.dfin = observeBig<L>(dfin, c.tuples);
+    return w;
+  }
+}
+
+// the property on one mapping over a huge index space, at the sampled tuples: "" or what is wrong
+static std::string checkBig(int lay, const VL& ext, const VL& str, const std::vector<VL>& tuples, const BigObs& o) {
+  std::size_t R = ext.size();
+  if (o.ext != ext || o.mext != ext) return "extents " + listStr(o.ext) + " / " + listStr(o.mext) + " expected " + listStr(ext);
+  I128 prod = 1;
+  bool empty = false;
+  for (long e : ext) { prod *= e; empty |= e == 0; }
+  // strides
+  VL wantStr(R, 1);
+  for (std::size_t r = 0; r < R; ++r) {
+    I128 w = 1;
+    if (lay == LEFT) for (std::size_t k = 0; k < r; ++k) w *= ext[k];
+    else if (lay == RIGHT) for (std::size_t k = r + 1; k < R; ++k) w *= ext[k];
+    else w = str[r];
+    wantStr[r] = long(w);
+  }
+  if (R > 0 && o.str != wantStr) return "strides " + listStr(o.str) + " expected " + listStr(wantStr);
+  if (R > 0 && o.mstr != wantStr) return "strides reported by a view " + listStr(o.mstr) + " expected " + listStr(wantStr);
+  // required span
+  I128 wantRss;
+  if (lay != STRIDE) wantRss = prod;
+  else if (R == 0) wantRss = 1;
+  else if (empty) wantRss = 0;
+  else { wantRss = 1; for (std::size_t r = 0; r < R; ++r) wantRss += I128(ext[r] - 1) * str[r]; }
+  if (I128(o.rss) != wantRss) return "required_span_size " + std::to_string(o.rss) + " expected " + std::to_string(long(wantRss));
+  if (I128(o.msize) != prod) return "size() of a view " + std::to_string(o.msize) + " but the index space has " + std::to_string(long(prod)) + " index tuples";
+  if (o.offs.size() != tuples.size()) return "number of offsets";
+  bool unique = lay != STRIDE || stridesSortedUnique(ext, str);
+  for (std::size_t i = 0; i < tuples.size(); ++i) {
+    const VL& t = tuples[i];
+    long off = o.offs[i];
+    if (off < 0 || off >= o.rss) return "offset " + std::to_string(off) + " of " + listStr(t) + " outside [0," + std::to_string(o.rss) + ")";
+    if (lay == STRIDE) {
+      I128 w = 0;
+      for (std::size_t r = 0; r < R; ++r) w += I128(t[r]) * str[r];
+      if (I128(off) != w) return "offset " + std::to_string(off) + " of " + listStr(t) + " expected " + std::to_string(long(w));
+    } else {
+      // decode the offset digit by digit (fastest dimension first): it must give back the index tuple
+      long rest = off;
+      for (std::size_t q = 0; q < R; ++q) {
+        std::size_t r = lay == LEFT ? q : R - 1 - q;
+        if (rest % ext[r] != t[r]) return "offset " + std::to_string(off) + " of " + listStr(t) + " is not the position of this tuple in the " + (lay == LEFT ? "column" : "row") + "-major enumeration";
+        rest /= ext[r];
+      }
+      if (rest != 0) return "offset " + std::to_string(off) + " of " + listStr(t) + " beyond the enumeration";
+    }
+    for (std::size_t j = 0; j < i; ++j) {
+      if (tuples[j] == t) continue;
+      if (unique && o.offs[j] == off) return "index tuples " + listStr(tuples[j]) + " and " + listStr(t) + " share the offset " + std::to_string(off);
+      // unit steps between sampled neighbours
+      for (int dir = 0; dir < 2; ++dir) {
+        const VL& a = dir ? t : tuples[j];
+        const VL& b = dir ? tuples[j] : t;
+        long oa = dir ? off : o.offs[j], ob = dir ? o.offs[j] : off;
+        std::size_t diff = R;
+        bool ok = true;
+        for (std::size_t r = 0; r < R && ok; ++r) {
+          if (a[r] == b[r]) continue;
+          if (b[r] == a[r] + 1 && diff == R) diff = r; else ok = false;
+        }
+        if (ok && diff < R && ob - oa != o.str[diff])
+          return "step in dimension " + std::to_string(diff) + " at " + listStr(a) + " is " + std::to_string(ob - oa) + " but stride is " + std::to_string(o.str[diff]);
+      }
+    }
+  }
+  return "";
+}
+
+static Result bigJudge(const Ctx& c, const BigRaw& w) {
+  if (w.rank0) return rank0Failure();
+  Result res;
+  if (!w.early.empty()) {
+    res.impl = "src{" + blockBig(w.src) + "}";
+    orFail(res, "mapping", w.early);
+    return res;
+  }
+  res.impl = "src{" + blockBig(w.src) + "} smid{" + blockBig(w.smid) + "} sfin{" + blockBig(w.sfin) + "} dmid{" + blockBig(w.dmid) +
+             "} dfin{" + blockBig(w.dfin) + "}";
+  orFail(res, "mapping", checkBig(c.lay, c.ext, c.str, c.tuples, w.src));
+  auto same = [&](const char* what, const BigObs& o, int lay, const VL& str) {
+    orFail(res, what, checkBig(lay, c.ext, str, c.tuples, o));
+    if (o.offs != w.src.offs) orFail(res, what, "converted mapping addresses differently: " + listStr(o.offs) + " vs " + listStr(w.src.offs));
+    if (o.rss != w.src.rss) orFail(res, what, "required_span_size changed");
+    if (o.str != w.src.str) orFail(res, what, "strides changed: " + listStr(o.str) + " vs " + listStr(w.src.str));
+  };
+  same("to stride", w.smid, STRIDE, w.src.str);
+  same("and back", w.sfin, c.lay, c.str);
+  same("to dextents", w.dmid, c.lay, c.str);
+  same("and back", w.dfin, c.lay, c.str);
+  long big = 0;
+  for (long s : w.src.str) big = std::max(big, s);
+  stat(big >= (1L << 31) ? "bigmap_stride_ge_2^31" : big >= (1L << 15) ? "bigmap_stride_ge_2^15" : "bigmap_stride_small");
+  stat(w.src.rss >= (1L << 32) ? "bigmap_span_ge_2^32" : w.src.rss >= (1L << 31) - 1 ? "bigmap_span_ge_2^31-1" : w.src.rss >= 32767 ? "bigmap_span_ge_32767" : "bigmap_span_small");
+  stat("bigmap_tuples", (long)c.tuples.size());
+  return res;
+}
+
+// preconditions of a bigmap line (both sides answer bad-op otherwise): the required span - with extents 0 counted as 1,
+// so that no stride of an empty index space overflows either - and every stride fit the index type
+static void requireBigFits(const Ctx& c) {
+  I128 lim = limitOf(c.it);
+  I128 prod = 1;
+  for (long e : c.ext) { prod *= std::max<long>(e, 1); if (prod > lim) throw BadOp{}; }
+  if (c.lay == STRIDE) {
+    I128 span = 1;
+    for (std::size_t r = 0; r < c.ext.size(); ++r) {
+      if (I128(c.str[r]) > lim) throw BadOp{};
+      span += I128(std::max<long>(c.ext[r], 1) - 1) * c.str[r];
+      if (span > lim) throw BadOp{};
+    }
+  }
+  if (c.tuples.size() > 64) throw BadOp{};
+  for (auto& t : c.tuples) {
+    if (t.size() != c.ext.size()) throw BadOp{};
+    for (std::size_t r = 0; r < t.size(); ++r) if (t[r] >= c.ext[r]) throw BadOp{};
+  }
+}
+
+template <class E, class L> Result doBig(const Ctx& c) { return bigJudge(c, bigRaw<E, L>(c)); }
+
+// ------------------------------------------------------------------------------------------------------------------
 // dispatch over the instantiated extents types
 // ------------------------------------------------------------------------------------------------------------------
 
 struct Entry {
   Result (*fn)(const Ctx&);
   bool full;  // mdspan/mdarray instantiated as well
+  bool big;   // bigmap instantiated as well
 };
+enum { F = 1, B = 2 };  // flags of a registered extents type
 
-template <class E, bool FULL> Result execE(const Ctx& c) {
+template <class E, int FLAGS> Result execE(const Ctx& c) {
+  constexpr bool FULL = (FLAGS & F) != 0, BIG = (FLAGS & B) != 0;
   auto byLayout = [&](auto f) -> Result {
     if (c.lay == LEFT) return f(S::layout_left{});
     if (c.lay == RIGHT) return f(S::layout_right{});
@@ -1071,6 +1426,9 @@ template <class E, bool FULL> Result execE(const Ctx& c) {
     if (c.kind == "mdspan") return byLayout([&](auto l) { return doMdspan<E, decltype(l)>(c); });
     if (c.kind == "mdarray") return byLayout([&](auto l) { return doMdarray<E, decltype(l)>(c); });
   }
+  if constexpr (BIG) {
+    if (c.kind == "bigmap") return byLayout([&](auto l) { return doBig<E, decltype(l)>(c); });
+  }
   throw BadOp{};
 }
 
@@ -1078,49 +1436,53 @@ static std::vector<std::pair<std::string, Entry>>& table() {
   static std::vector<std::pair<std::string, Entry>> t;
   return t;
 }
-template <class I, bool FULL, std::size_t... X> void reg(const char* it, const char* pat) {
-  table().push_back({std::string(it) + ":" + pat, Entry{&execE<S::extents<I, X...>, FULL>, FULL}});
+template <class I, int FLAGS, std::size_t... X> void reg(const char* it, const char* pat) {
+  table().push_back({std::string(it) + ":" + pat, Entry{&execE<S::extents<I, X...>, FLAGS>, (FLAGS & F) != 0, (FLAGS & B) != 0}});
 }
 static void registerTypes() {
   using sz = std::size_t;
   // rank 0
-  reg<int, true>("int", "-");
-  reg<sz, false>("size", "-");
+  reg<int, F | B>("int", "-");
+  reg<sz, 0>("size", "-");
   // rank 1
-  reg<int, true, D>("int", "d");
-  reg<int, false, 0>("int", "0");
-  reg<int, false, 1>("int", "1");
-  reg<int, true, 3>("int", "3");
-  reg<sz, false, D>("size", "d");
-  reg<short, true, D>("short", "d");
-  reg<short, false, 2>("short", "2");
+  reg<int, F | B, D>("int", "d");
+  reg<int, 0, 0>("int", "0");
+  reg<int, 0, 1>("int", "1");
+  reg<int, F, 3>("int", "3");
+  reg<sz, B, D>("size", "d");
+  reg<short, F | B, D>("short", "d");
+  reg<short, 0, 2>("short", "2");
   // rank 2
-  reg<int, false, D, D>("int", "dd");
-  reg<int, true, D, 3>("int", "d3");
-  reg<int, false, 2, D>("int", "2d");
-  reg<int, true, 2, 3>("int", "23");
-  reg<int, false, 0, D>("int", "0d");
-  reg<sz, true, D, D>("size", "dd");
-  reg<sz, false, 4, 0>("size", "40");
-  reg<short, false, D, 2>("short", "d2");
-  reg<short, false, 1, 4>("short", "14");
+  reg<int, B, D, D>("int", "dd");
+  reg<int, F, D, 3>("int", "d3");
+  reg<int, B, 2, D>("int", "2d");
+  reg<int, F, 2, 3>("int", "23");
+  reg<int, 0, 0, D>("int", "0d");
+  reg<sz, F | B, D, D>("size", "dd");
+  reg<sz, 0, 4, 0>("size", "40");
+  reg<short, B, D, 2>("short", "d2");
+  reg<short, 0, 1, 4>("short", "14");
   // rank 3
-  reg<int, false, D, D, D>("int", "ddd");
-  reg<int, true, 2, D, 3>("int", "2d3");
-  reg<int, false, D, 3, D>("int", "d3d");
-  reg<int, false, D, D, 0>("int", "dd0");
-  reg<sz, false, D, D, D>("size", "ddd");
-  reg<sz, false, 3, 1, D>("size", "31d");
-  reg<short, true, D, D, D>("short", "ddd");
+  reg<int, 0, D, D, D>("int", "ddd");
+  reg<int, F, 2, D, 3>("int", "2d3");
+  reg<int, B, D, 3, D>("int", "d3d");
+  reg<int, 0, D, D, 0>("int", "dd0");
+  reg<sz, B, D, D, D>("size", "ddd");
+  reg<sz, B, 3, 1, D>("size", "31d");
+  reg<short, F | B, D, D, D>("short", "ddd");
   // rank 4
-  reg<int, true, D, D, D, D>("int", "dddd");
-  reg<int, false, 2, D, D, 3>("int", "2dd3");
-  reg<int, false, D, 1, D, 2>("int", "d1d2");
-  reg<int, false, 2, 3, 1, 2>("int", "2312");
-  reg<sz, true, D, D, D, D>("size", "dddd");
-  reg<sz, false, 3, D, 2, D>("size", "3d2d");
-  reg<short, true, D, D, D, D>("short", "dddd");
-  reg<short, false, D, D, D, 4>("short", "ddd4");
+  reg<int, F | B, D, D, D, D>("int", "dddd");
+  reg<int, 0, 2, D, D, 3>("int", "2dd3");
+  reg<int, 0, D, 1, D, 2>("int", "d1d2");
+  reg<int, 0, 2, 3, 1, 2>("int", "2312");
+  reg<sz, F | B, D, D, D, D>("size", "dddd");
+  reg<sz, B, 3, D, 2, D>("size", "3d2d");
+  reg<short, F, D, D, D, D>("short", "dddd");
+  reg<short, 0, D, D, D, 4>("short", "ddd4");
+  // a signed 64-bit index type
+  reg<long, B, D, D>("long", "dd");
+  reg<long, B, D, 3, D>("long", "d3d");
+  reg<long, B, 2, D, D, D>("long", "2ddd");
 }
 static const Entry* findEntry(const std::string& key) {
   for (auto& kv : table()) if (kv.first == key) return &kv.second;
@@ -1396,15 +1758,36 @@ static Result execInner(const std::string& line) {
   if (w[0] == "span") { stat("op_span"); return execSpan(line); }
   Ctx c;
   c.kind = w[0];
-  std::size_t need = c.kind == "mdarray" ? 7 : 6;
-  if (c.kind != "map" && c.kind != "conv" && c.kind != "mdspan" && c.kind != "mdarray") throw BadOp{};
+  const bool big = c.kind == "bigmap";
+  if (big) {
+    // `bigmap IT PAT LAY EXTS [STRIDES] : t;t;...`
+    auto parts = line.find(" : ");
+    if (parts == std::string::npos) throw BadOp{};
+    std::string tl = line.substr(parts + 3);
+    w = words(line.substr(0, parts));
+    auto tw = words(tl);
+    if (tw.size() != 1) throw BadOp{};
+    if (tw[0] != "-")
+      for (auto& seg : split(tw[0], ';')) c.tuples.push_back(strictList(seg));
+  }
+  std::size_t need = c.kind == "mdarray" ? 7 : big ? 5 : 6;
+  if (c.kind != "map" && c.kind != "conv" && c.kind != "mdspan" && c.kind != "mdarray" && !big) throw BadOp{};
   if (w.size() < need) throw BadOp{};
   c.it = w[1];
   c.pat = w[2];
   c.layName = w[3];
-  c.x = w[4];
-  std::size_t p = 5;
-  if (c.kind == "mdarray") c.acc = w[p++];
+  std::size_t p = 4;
+  if (!big) c.x = w[p++];
+  if (c.kind == "mdarray") {
+    c.acc = w[p++];
+    // optional last token: surplus elements of the container
+    if (w.size() == need + 1 && w.back().rfind("pad=", 0) == 0) {
+      const std::string k = w.back().substr(4);
+      if (k.size() != 1 || k[0] < '1' || k[0] > '6') throw BadOp{};
+      c.pad = k[0] - '0';
+      w.pop_back();
+    }
+  }
   c.patv = parsePat(c.pat);
   if (c.layName == "left") c.lay = LEFT;
   else if (c.layName == "right") c.lay = RIGHT;
@@ -1415,16 +1798,24 @@ static Result execInner(const std::string& line) {
     if (w.size() != p + 1) throw BadOp{};
     c.str = strictList(w[p++]);
     if (c.str.size() != c.patv.size()) throw BadOp{};
-    for (long s : c.str) if (s > MAXSTRIDE) throw BadOp{};
+    for (long s : c.str) if (s > MAXSTRIDE && !big) throw BadOp{};
   } else if (w.size() != p) throw BadOp{};
   if (c.ext.size() != c.patv.size()) throw BadOp{};
   for (std::size_t r = 0; r < c.ext.size(); ++r) {
-    if (c.ext[r] > MAXEXT) throw BadOp{};
+    if (c.ext[r] > MAXEXT && !big) throw BadOp{};
     if (c.patv[r] >= 0 && c.patv[r] != c.ext[r]) throw BadOp{};
   }
   if (c.kind == "mdarray" && c.lay == STRIDE) throw BadOp{};
   const Entry* en = findEntry(c.it + ":" + c.pat);
   if (!en) throw BadOp{};
+  if (big) {
+    if (!en->big) throw BadOp{};
+    requireBigFits(c);
+    stat("op_bigmap");
+    stat("bigmap_index_" + c.it);
+    stat("bigmap_layout_" + c.layName);
+    return en->fn(c);
+  }
   stat("op_" + c.kind);
   stat("rank_" + std::to_string(c.patv.size()));
   stat("layout_" + c.layName);
@@ -1513,10 +1904,13 @@ static VL genStrides(Rng& r, const VL& ext) {
 static const std::vector<std::string> CTORS = {"vfull", "vdyn", "afull", "adyn", "sfull", "sdyn"};
 static const std::vector<std::string> LAYS = {"left", "right", "stride"};
 static const std::vector<std::string> ACCS = {"call", "arr", "span", "br"};
-static const std::vector<std::string> MDSPAN_FORMS = {"call", "call", "arr", "arr", "span", "span", "br", "acc", "acc", "vdyn", "vfull", "adyn", "sdyn", "sfull", "def", "swap"};
+static const std::vector<std::string> MDSPAN_FORMS = {"call", "call", "arr", "arr", "span", "span", "br", "acc", "acc", "accil", "accil", "vdyn", "vfull", "adyn", "sdyn", "sfull", "def", "swap"};
 static const std::vector<std::string> ACTORS = {"ext", "extval", "map", "mapval", "cont", "contmv", "copy", "conv",
                                                 "span", "spanal", "strided", "alloc", "allocval", "variadic", "arrext", "arrval", "arrcont",
-                                                "contmve", "extvalal", "contal", "contmval", "mapcontal", "mapcontmval", "copyal", "swap", "default"};
+                                                "contmve", "extvalal", "contal", "contmval", "mapcontal", "mapcontmval", "copyal", "swap", "default",
+                                                "spanil", "spanilal", "stridedil"};
+// constructor forms that are handed a container (which may be larger than the required span)
+static const std::set<std::string> PADDABLE = {"cont", "contmv", "copy", "conv", "contmve", "contal", "contmval", "mapcontal", "mapcontmval", "copyal", "swap"};
 
 static std::string keyIt(const std::string& key) { return key.substr(0, key.find(':')); }
 static std::string keyPat(const std::string& key) { return key.substr(key.find(':') + 1); }
@@ -1641,8 +2035,104 @@ static std::string genOne(Rng& r, const std::string& kind, const std::string& ke
         for (std::size_t q = 0; q < R; ++q) if (patv[q] < 0) ext[q] = 0;
     }
     os << (r.coin() ? "left" : "right") << " " << ct << " " << acc << " " << listStr(ext);
+    // a container larger than the required span (rarely also where no container is handed over: bad-op on both sides)
+    if (PADDABLE.count(ct) ? r.coin(1, 2) : r.coin(1, 60)) os << " pad=" << 1 + r.below(6);
+    else if (ct.rfind("arr", 0) == 0 && r.coin(1, 2)) os << " pad=2";
   }
   (void)full;
+  return os.str();
+}
+
+
+// ---- huge index spaces -------------------------------------------------------------------------------------------
+
+// an extent for a dimension when the product of the remaining extents may still grow by the factor `budget`
+static long genBigExtent(Rng& r, long budget, bool last) {
+  int k = (int)r.below(24);
+  if (k == 0) return 0;
+  if (k < 4) return 1;
+  if (budget < 2) return 1;
+  if (k < 8) return std::min<long>(budget, 2 + (long)r.below(4));
+  if (last ? k < 16 : k < 10) return budget - (long)r.below(std::min<long>(budget, 2));  // use up the whole budget (boundary)
+  // log-uniform
+  int bits = 0;
+  while ((budget >> bits) > 1) ++bits;
+  int b = r.coin() ? std::max(1, bits - (int)r.below(5)) : 1 + (int)r.below((uint64_t)bits);
+  long hi = std::min<long>(budget, (1L << b) + (long)r.below(1L << b));
+  return std::max<long>(2, hi - (long)r.below(3));
+}
+
+static std::string genBig(Rng& r) {
+  static std::vector<std::string> keys;
+  if (keys.empty())
+    for (auto& kv : table()) if (kv.second.big) keys.push_back(kv.first);
+  const std::string& key = r.pick(keys);
+  const std::string it = keyIt(key);
+  VL patv = parsePat(keyPat(key));
+  std::size_t R = patv.size();
+  long lim = limitOf(it);
+  if (r.coin(1, 8)) lim = std::min<long>(lim, r.coin() ? (1L << 33) : 70000);  // sometimes just above 2^31 / 2^15
+  long budget = lim;
+  for (long p : patv) if (p > 0) budget /= p;
+  // dynamic extents in a random order, so that the big ones are not always in front
+  std::vector<std::size_t> dyn;
+  for (std::size_t q = 0; q < R; ++q) if (patv[q] < 0) dyn.push_back(q);
+  for (std::size_t i = dyn.size(); i > 1; --i) std::swap(dyn[i - 1], dyn[r.below(i)]);
+  VL ext = patv;
+  for (std::size_t i = 0; i < dyn.size(); ++i) {
+    long e = genBigExtent(r, budget, i + 1 == dyn.size());
+    ext[dyn[i]] = e;
+    budget /= std::max<long>(e, 1);
+  }
+  std::string lay = r.pick(LAYS);
+  VL str;
+  if (lay == "stride") {
+    int k = (int)r.below(10);
+    if (k < 2) str = canonStrides(LEFT, [&] { VL x = ext; for (auto& v : x) v = std::max<long>(v, 1); return x; }());
+    else if (k < 4) str = canonStrides(RIGHT, [&] { VL x = ext; for (auto& v : x) v = std::max<long>(v, 1); return x; }());
+    else {
+      // a permuted nesting, padded while the span stays below the limit
+      std::vector<std::size_t> perm(R);
+      for (std::size_t i = 0; i < R; ++i) perm[i] = i;
+      for (std::size_t i = R; i > 1; --i) std::swap(perm[i - 1], perm[r.below(i)]);
+      str.assign(R, 1);
+      I128 cur = 1;
+      long room = budget;  // factor by which the span may still grow
+      for (std::size_t i = 0; i < R; ++i) {
+        if (room >= 4 && r.coin(1, 3)) { long f = 2 + (long)r.below(2); cur *= f; room /= f; }
+        else if (room >= 3 && r.coin(1, 3)) { cur += (long)r.below(3); room /= 3; }
+        str[perm[i]] = long(cur);
+        cur *= std::max<long>(ext[perm[i]], 1);
+      }
+    }
+  }
+  // sampled index tuples: corners, random interior points, and unit-step neighbours
+  std::vector<VL> tuples;
+  bool empty = false;
+  for (long e : ext) empty |= e == 0;
+  if (!empty) {
+    int nt = 3 + (int)r.below(5);
+    for (int i = 0; i < nt; ++i) {
+      VL t(R);
+      for (std::size_t q = 0; q < R; ++q) {
+        int k = (int)r.below(6);
+        t[q] = k == 0 ? 0 : k == 1 ? ext[q] - 1 : k == 2 ? std::min<long>(ext[q] - 1, (long)r.below(3)) : (long)r.below((uint64_t)ext[q]);
+      }
+      tuples.push_back(t);
+      for (std::size_t q = 0; q < R; ++q)
+        if (r.coin(1, 2)) {
+          VL u = t;
+          if (u[q] + 1 < ext[q]) { ++u[q]; tuples.push_back(u); }
+          else if (u[q] > 0) { --u[q]; tuples.push_back(u); }
+        }
+    }
+  }
+  std::ostringstream os;
+  os << "bigmap " << it << " " << keyPat(key) << " " << lay << " " << listStr(ext);
+  if (lay == "stride") os << " " << listStr(str);
+  os << " : ";
+  if (tuples.empty()) os << "-";
+  for (std::size_t i = 0; i < tuples.size(); ++i) os << (i ? ";" : "") << listStr(tuples[i]);
   return os.str();
 }
 
@@ -1679,7 +2169,8 @@ static std::string gen(Rng& r, long i, const Args& a) {
   long maxe = a.tier == "thorough" ? 6 : 4;
   int k = (int)r.below(100);
   if (k < 8) return genSpan(r);
-  std::string kind = k < 30 ? "map" : k < 55 ? "conv" : k < 78 ? "mdspan" : "mdarray";
+  if (k < 17) return genBig(r);
+  std::string kind = k < 35 ? "map" : k < 57 ? "conv" : k < 78 ? "mdspan" : "mdarray";
   bool needFull = kind == "mdspan" || kind == "mdarray";
   while (true) {
     auto& kv = table()[r.below(table().size())];
